@@ -249,7 +249,7 @@ BOUNDS = {
              'messages, cumulative time == exact tempo-map integral, length, copies; standard-rounding model (each float op '
              'x(1+d), |d|<=2^-53) for shapes of <=2 deltas; type 2 refusal; play() on a symbolic clock (start, oversleep and '
              'consumer delay symbolic reals; deltas symbolic, tempo from a 3-value menu, ticks_per_beat 96) for shapes of <=3 events; tick2second/second2tick inverse for t<2^31 in both models',
-    'thorough': 'rounding model for 3 deltas; play() shapes of 4 events; more 2-track shapes',
+    'thorough': 'play() shapes of 4 events (the rounding model stays at <=2 deltas: with three z3 answers unknown on some shapes)',
 }
 OUTSIDE = 'bit-exact IEEE-754 double arithmetic (both solvers time out on it: DESIGN 1); float constants are idealised to ' \
           'rationals with denominator <= 10^12 (1e-6 = 10^-6); overflow to inf, subnormals; more than 4 events'
@@ -280,7 +280,7 @@ def JOBS(tier):
     for sh in (['nT', 'n'], ['T', 'nn'], ['nTn', 'T'], ['n', 'T', 'n'], ['Tn', 'Tn'], ['', 'n'], ['ne', 'Tn'],
                ['ne', 'ne'], ['e', 'Te'], ['ne', 'e', 'n'], ['e', 'e', 'Tn'], ['een', 'T']):
         jobs.append((iter_tempo, {'shape': sh}, {'width': 0, 'cost': 100}))
-    for s in _shapes(2 if quick else 3):
+    for s in _shapes(2):            # (three deltas: z3's nonlinear solver answers unknown on some shapes)
         jobs.append((iter_tempo, {'shape': [s], 'ulps': 4 * len(s) + 4},
                      {'width': 0, 'rounding': True, 'cost': 200, 'solver_timeout_ms': 120000}))
     for s in ('', 'n', 'nT'):
